@@ -51,14 +51,14 @@ CLAIMED = {
    note='md5 is uninterpreted; text-mode tell() and the csv/json decoders used to count rows are CPython; stats bytes vs descriptor bytes is a listed finding',
    ref='6/C09'),
  'C10': dict(
-   technique='Lean 4 proof (matcher = specification for every regex oracle; frame theorem for every mapSel processor) + step correspondence + frame oracle on real code + two-step frame oracle (frame under composition)',
+   technique='Lean 4 proof (matcher = specification for every regex oracle; frame theorem for every mapSel processor) + step correspondence + frame oracle on real code + two-step frame oracle (frame under composition) + translator tie: the function(s) re-translated from the working tree into the PyLite embedding on every run and proved equal to the model (Tie_matcher_resolve: ResourceMatcher.__init__/.match = Sel.resolve for every selector form and regex oracle) + pyeval correspondence (real function vs evaluator of the translated syntax)',
    text='Theorems C10_matcher_spec / C10_frame_* hold for all packages, selectors and regex oracles; the model is tied to the code by the step correspondence (real processor vs compiled model on generated packages) and the frame property is re-checked on the real output of every selector-taking processor.',
-   note='re is an oracle parameter (table per case); processors not in Layer A (set_type, validate, sort_rows, printer, parallelize, add_computed_field, find_replace, update_schema, load) are covered by the frame oracle on the real code only',
+   note='re is an oracle parameter (table per case); processors not in Layer A (set_type, validate, sort_rows, printer, parallelize, add_computed_field, find_replace, update_schema, load) are covered by the frame oracle on the real code only; PyLite translator + evaluator are trusted and validated by the pyeval correspondence',
    ref='6/C10'),
  'C11': dict(
-   technique='Lean 4 proof (each of the 12 incremental aggregators = its definition; the index holds per key the fold over exactly the rows rendering it; join output = relational specification per mode; one row per key for full-outer / deduplication) + join correspondence + relational-spec oracle',
+   technique='Lean 4 proof (each of the 12 incremental aggregators = its definition; the index holds per key the fold over exactly the rows rendering it; join output = relational specification per mode; one row per key for full-outer / deduplication) + join correspondence + relational-spec oracle + translator tie: the function(s) re-translated from the working tree into the PyLite embedding on every run and proved equal to the model (Tie_join_*: every func / finaliser of AGGREGATORS, median, update_counter = aggStep / finalise) + pyeval correspondence (real function vs evaluator of the translated syntax)',
    text='C11_<agg> (12 theorems), C11_index_groups, C11_join_spec, C11_half_outer_keeps_all, C11_inner_subset and C11_rows_per_key hold for all tables, key specifications and field lists with distinct target names. Real joins over generated tables (duplicate / missing / null keys, field-list / format-string / row-number keys, all modes, all aggregators, source_delete, >10240 keys) are compared with the compiled model and with an independent Python statement of the relational join; all aggregators are also enumerated over all short value lists.',
-   note='kvfile (last write wins, key order) is a parameter; avg/median quotients are compared as Python computes them from the same integers; numeric aggregates are generated over integers; unmatched / deduplicated rows are compared as multisets (their order is the key order of the key/value file)',
+   note='kvfile (last write wins, key order) is a parameter; avg/median quotients are compared as Python computes them from the same integers; numeric aggregates are generated over integers; unmatched / deduplicated rows are compared as multisets (their order is the key order of the key/value file); tie theorems hold for integer / text columns (sum, avg, median over integers); PyLite translator + evaluator are trusted and validated by the pyeval correspondence',
    ref='6/C11'),
  'C12': dict(
    technique='Lean 4 proof (string order is a strict total order; fixed-width hex is an order embedding; flipped IEEE bit pattern orders like the value; key+separator+row-number compares as (key, row number); output is a sorted, stable permutation; reverse = exact reverse) + sortkey/sort correspondence + stable-sort oracle',
@@ -71,9 +71,9 @@ CLAIMED = {
    note='tabulator parsing and Schema.infer are third-party (parse faithfulness by comparison only); schema casting is shared with C14; the `while True` of the numbering is modelled with fuel (termination by distinct candidates is argued, not proved)',
    ref='6/C13'),
  'C14': dict(
-   technique='Lean 4 proof (schema_validator loop = per-policy specification, for every cast function) + validate correspondence + policy oracle on real code + transform-before-cast theorems (nulls included)',
+   technique='Lean 4 proof (schema_validator loop = per-policy specification, for every cast function) + validate correspondence + policy oracle on real code + transform-before-cast theorems (nulls included) + translator tie: the function(s) re-translated from the working tree into the PyLite embedding on every run and proved equal to the model (Tie_handler_* / Tie_handlers_castField: ignore, drop, clear, raise_exception = the policy cases of castField) + pyeval correspondence (real function vs evaluator of the translated syntax)',
    text='For every cast function, table, number and position of bad values: drop = filter+cast, ignore/clear keep all rows, custom handlers by truthiness, raise aborts at the first bad row with its absolute index, emitted values are casts; tied to the code by the validate correspondence with the real cast_value outcomes and re-checked directly on real set_type/validate runs.',
-   note='Field.cast_value is a parameter (its outcomes are supplied per case); field names of the schema assumed distinct; field-name patterns with a top-level alternation are not generated (their anchoring is not pinned by the property)',
+   note='Field.cast_value is a parameter (its outcomes are supplied per case); field names of the schema assumed distinct; field-name patterns with a top-level alternation are not generated (their anchoring is not pinned by the property); the try/except loop around the handlers is outside the translated subset (validate correspondence); PyLite translator + evaluator are trusted and validated by the pyeval correspondence',
    ref='6/C14'),
  'C18': dict(
    technique='Lean 4 proof (transition system of producer / N workers / fetcher / collector: termination measure, multiset conservation, 10-clause inductive invariant, deadlock freedom, exactly-once at termination; all N>=1, all inputs, all schedules) + sched correspondence under a controlled scheduler + real multi-process runs',
@@ -96,9 +96,9 @@ CLAIMED = {
    note='kvfile (duplicate spill) assumed order-preserving on 8-hex-digit keys; aliasing not modelled (probed)',
    ref='6/C16'),
  'C17': dict(
-   technique='Lean 4 proof (filter = List.filter, dedupe first-of-key + idempotent, unpivot shape/count) + step correspondence + Python-spec oracle',
+   technique='Lean 4 proof (filter = List.filter, dedupe first-of-key + idempotent, unpivot shape/count) + step correspondence + Python-spec oracle + translator tie: the function(s) re-translated from the working tree into the PyLite embedding on every run and proved equal to the model (Tie_filter_process: the generator of filter_rows.process_resource = the filter, by induction over the rows through the evaluator loop) + pyeval correspondence (real function vs evaluator of the translated syntax)',
    text='Theorems hold for all tables; the compiled model is compared with the real processors on generated tables and an independent Python specification is checked on the real output.',
-   note='regex via oracle table; Python == across bool/int/Decimal modelled by pyEq',
+   note='regex via oracle table; Python == across bool/int/Decimal modelled by pyEq; deduper / unpivot_rows / old_style_conditions are translated and covered by the pyeval correspondence, tie theorems not yet written; PyLite translator + evaluator are trusted and validated by the pyeval correspondence',
    ref='6/C17'),
  'C20': dict(
    technique='Lean 4 proof (table state machine: rewrite / append / update=fold of upserts; latest values per key, key uniqueness preserved, truthful flags, histories compose) + sqlhist correspondence + SELECT-after-every-dump oracle on SQLite',
@@ -133,9 +133,9 @@ def main():
                   'baseline_off_cmd': 'cd /repo && /venv/bin/python -m pytest -ra -q -p no:cacheprovider --timeout=900 --continue-on-collection-errors',
                   'source_commits': [], 'add_only': True},
         'engines': [{'name': 'lean4-model+correspondence', 'path': 'lean/', 'serves_properties': sorted(CLAIMED),
-                     'kind_free_text': 'hand-written executable Lean 4 model + theorems (lake), live parameters regenerated from /repo, JSON-lines correspondence harness in Python running the real code, per-property oracles'}],
+                     'kind_free_text': 'hand-written executable Lean 4 model + theorems (lake), live parameters, code skeletons and translated functions (PyLite) regenerated from /repo on every run, JSON-lines correspondence harness in Python running the real code, per-property oracles'}],
         'checks': checks,
-        'notes': 'Every check: regenerate live parameters, lake build, #print axioms audit, correspondence, oracle, decision (DESIGN.md §2.6).',
+        'notes': 'Every check: regenerate live parameters, code skeletons and translated functions, lake build, #print axioms audit, correspondence, oracle, decision (DESIGN.md §2.6).',
         'not_applicable': na,
     }
     with open(os.path.join(HERE, 'MANIFEST.json'), 'w') as f:
